@@ -253,6 +253,7 @@ func RunParent(p *Prop, tier string) int {
 		// iteration order reached by the change): then up to 25 replays are made and the violation is
 		// reported as intermittent if it shows again at least twice; otherwise it is not believed.
 		repro, tries := 0, 0
+		notFound := false
 		isCrash := strings.Contains(v.Signature, "/crash/")
 		limit := 5
 		if isCrash {
@@ -283,40 +284,59 @@ func RunParent(p *Prop, tier string) int {
 				}
 			}
 			if !ok && !isCrash && strings.Contains(string(out), "replay: case ") && strings.Contains(string(out), " not found") {
-				// the artefact cannot address the case (a gap in the driver's replay addressing, not a
-				// property of the code under test): fall back to re-running the worker shard that
-				// reported it, twice; enumeration is deterministic, so a real violation shows up again
-				wi, have := shardOf[v.Signature+"\x00"+v.Scope+"\x00"+fmt.Sprint(v.Index)]
-				again := 0
-				for k := 0; have && k < 2; k++ {
-					out2 := filepath.Join(runDir, fmt.Sprintf("rerun-w%d-%d.json", wi, k))
-					cmd := exec.Command(self, "-worker", "-prop", p.ID, "-tier", tier, "-shard", strconv.Itoa(wi),
-						"-of", strconv.Itoa(nw), "-seed", strconv.FormatInt(seed, 10), "-out", out2)
-					cmd.Env = append(os.Environ(), procs, "GOMEMLIMIT=3GiB", "TMPDIR="+runDir)
-					cmd.Run()
-					if b, err := os.ReadFile(out2); err == nil {
-						r2 := &Result{}
-						if json.Unmarshal(b, r2) == nil {
-							for _, x := range r2.Violations {
-								if x.Scope == v.Scope && x.Index == v.Index && sigCore(x.Signature) == sigCore(v.Signature) {
-									again++
-									break
-								}
-							}
-						}
-					}
-				}
-				if again == 2 {
-					fmt.Printf("NOTE: the replay artefact cannot address case %s #%d; confirmed instead by re-running worker shard %d twice (same violation both times)\n", v.Scope, v.Index, wi)
-					repro, tries = limit, limit
-					break
-				}
+				// the artefact cannot address the case (a gap in the driver's replay addressing):
+				// no point in repeating it; the shard re-run below decides
+				notFound = true
+				break
 			}
 			if ok {
 				repro++
 			} else if limit == 5 {
 				limit = 25
 				fmt.Fprintf(os.Stderr, "replay %d of %s did not reproduce signature %q; trying up to 25 replays:\n%s\n", tries, path, v.Signature, tail(string(out), 600))
+			}
+		}
+		if repro == 0 && !isCrash {
+			// Not reproducible from the single recorded case: either the driver cannot address it, or
+			// the failure depends on what the same process executed BEFORE it (state the code under
+			// test keeps at package level or in pools). Enumeration is deterministic, so the whole
+			// worker shard that reported it is re-run, twice: a real violation shows up again at the
+			// same case both times and is reported (the shard command is its replay); anything else
+			// stays unconfirmed.
+			wi, have := shardOf[v.Signature+"\x00"+v.Scope+"\x00"+fmt.Sprint(v.Index)]
+			again := 0
+			for k := 0; have && k < 2; k++ {
+				out2 := filepath.Join(runDir, fmt.Sprintf("rerun-w%d-%d.json", wi, k))
+				os.Remove(out2)
+				cmd := exec.Command(self, "-worker", "-prop", p.ID, "-tier", tier, "-shard", strconv.Itoa(wi),
+					"-of", strconv.Itoa(nw), "-seed", strconv.FormatInt(seed, 10), "-out", out2)
+				procs := "GOMAXPROCS=2"
+				if p.Instr {
+					procs = "GOMAXPROCS=1"
+				}
+				cmd.Env = append(os.Environ(), procs, "GOMEMLIMIT=3GiB", "TMPDIR="+runDir)
+				cmd.Run()
+				if b, err := os.ReadFile(out2); err == nil {
+					r2 := &Result{}
+					if json.Unmarshal(b, r2) == nil {
+						for _, x := range r2.Violations {
+							if x.Scope == v.Scope && x.Index == v.Index && sigCore(x.Signature) == sigCore(v.Signature) {
+								again++
+								break
+							}
+						}
+					}
+				}
+			}
+			if again == 2 {
+				why := "it does not violate the property when executed alone: the failure depends on what the same process executed before it"
+				if notFound {
+					why = "the replay artefact cannot address it"
+				}
+				fmt.Printf("NOTE: case %s #%d: %s; confirmed by re-running worker shard %d of %d twice (same violation at the same case both times; replay: vcheck -worker -prop %s -tier %s -shard %d -of %d)\n", v.Scope, v.Index, why, wi, nw, p.ID, tier, wi, nw)
+				repro, tries = 1, 1
+				v.ShardReplay = fmt.Sprintf("%d/%d/%d", wi, nw, seed)
+				WriteJSON(path, v)
 			}
 		}
 		if repro < tries {
@@ -475,6 +495,33 @@ func RunReplay(lookup func(string) *Prop, path string, quiet bool) int {
 		return 2
 	}
 	tier := v.Tier
+	if v.ShardReplay != "" {
+		// replay = the worker shard that reported it
+		var wi, nw int
+		var seed int64
+		fmt.Sscanf(v.ShardReplay, "%d/%d/%d", &wi, &nw, &seed)
+		self, _ := os.Executable()
+		out := filepath.Join(os.TempDir(), fmt.Sprintf("verif-shard-replay-%d.json", os.Getpid()))
+		defer os.Remove(out)
+		defer os.Remove(out + ".marker")
+		cmd := exec.Command(self, "-worker", "-prop", p.ID, "-tier", tier, "-shard", strconv.Itoa(wi), "-of", strconv.Itoa(nw), "-seed", strconv.FormatInt(seed, 10), "-out", out)
+		cmd.Env = append(os.Environ(), "GOMEMLIMIT=3GiB")
+		cmd.Run()
+		b, err := os.ReadFile(out)
+		r2 := &Result{}
+		if err != nil || json.Unmarshal(b, r2) != nil {
+			fmt.Println("replay: the worker shard did not complete")
+			return 2
+		}
+		for _, x := range r2.Violations {
+			if x.Scope == v.Scope && x.Index == v.Index && sigCore(x.Signature) == sigCore(v.Signature) {
+				fmt.Printf("REPRODUCED signature=%s\n", x.Signature)
+				return 1
+			}
+		}
+		fmt.Println("NOT-REPRODUCED (the shard passes this case on the current tree)")
+		return 0
+	}
 	c := NewCtx(p.ID, tier, 0, 1, 0, time.Hour)
 	c.Replay, c.ReplayScope, c.ReplayIndex, c.ReplayExtra, c.Verbose = true, v.Scope, v.Index, v.Extra, !quiet
 	if msg := Guard(func() { p.Run(c) }); msg != "" {
